@@ -159,6 +159,7 @@ def p_C05(ctx):
                 "type and the zero-sized type; after every step: no double drop, no dead/duplicated cell, live elements = "
                 "array + handed to caller; at the end nothing live. distinct by (final call, args, shape, prefix tail)")
     ctx.assumptions = HIST_ASSUME
+    rawmem_check(ctx)      # Layer B: the raw-memory algorithms satisfy the memory-level invariants at every crash point
     m = 3 if ctx.quick else 4
     r = hist_tlc_edges(ctx, "edges", m, m)
     ctx.count_nontrivial(r.cases_path, hist_key)
@@ -186,6 +187,7 @@ def p_C06(ctx):
                 "(usize::MAX, wrap-adversarial), supplied length 0..dim+1; x element types x capacity modes x build profiles; "
                 "distinct by (call, args, shape before)")
     ctx.assumptions = HIST_ASSUME
+    rawmem_check(ctx)      # Layer B: the raw-memory algorithms satisfy the memory-level invariants at every crash point
     m = 4 if ctx.quick else 5
     r = hist_tlc_edges(ctx, "edges", m, m, ops=INSERT_OPS, workers=4)
     ctx.count_nontrivial(r.cases_path, hist_key)
@@ -202,6 +204,7 @@ def p_C07(ctx):
                 "every (shape, removed index, taken-from-front, taken-from-back) state; x element types x capacity modes x "
                 "profiles; distinct by (call, args, shape, drain position)")
     ctx.assumptions = HIST_ASSUME
+    rawmem_check(ctx)      # Layer B: the raw-memory algorithms satisfy the memory-level invariants at every crash point
     m = 4 if ctx.quick else 5
     r = hist_tlc_edges(ctx, "edges", m, m, ops=REMOVE_OPS | DRAIN_OPS, workers=4)
     sel = os.path.join(ctx.outdir, "drain.cases.ndjson")
@@ -520,6 +523,8 @@ def iter_pipeline(ctx, kinds, what):
     ctx.count_nontrivial(w.cases_path, iter_key)
     for prof, elem in [("dev", "u32"), ("release", "elem")]:
         ctx.replay(w.cases_path, attr_iter, profile=prof, elem=elem, label="walks")
+    # Layer B: the cursors as implemented refine the ideal sequence; every concrete cursor state is replayed
+    cursors_check(ctx, [k for k in kinds if not k.startswith("into_")], attr_iter)
 
 
 def p_C08(ctx):
@@ -693,6 +698,7 @@ def p_C11(ctx):
                 "PostFaultOK (shape invariant, every cell live and from before-or-supplied, no duplicates) and everything after it must follow "
                 "the history machine from that state, with no element dropped twice. distinct by (op, args, fault point, shape, prefix tail)")
     ctx.assumptions = HIST_ASSUME + ["std's unwinding semantics for panics inside element destructors"]
+    rawmem_check(ctx)      # Layer B: the raw-memory algorithms satisfy the memory-level invariants at every crash point
     m = 3 if ctx.quick else 4
     r = hist_tlc_edges(ctx, "faults", m, m, ops=("none",), faults=("iter", "clone", "default", "drop", "cmp"), workers=4)
     ctx.count_nontrivial(r.cases_path, fault_key)
@@ -709,6 +715,7 @@ def p_C12(ctx):
                 "events are validated by TLC against TooDeeTrace.tla (PostFaultOK: shape invariant, cells from before, no duplicates, nothing "
                 "dropped twice then or later). distinct by (shape, removed index, consumption stage)")
     ctx.assumptions = HIST_ASSUME
+    rawmem_check(ctx)      # Layer B: the raw-memory algorithms satisfy the memory-level invariants at every crash point
     m = 3 if ctx.quick else 4
     r = hist_tlc_edges(ctx, "leaks", m, m, ops=("leak_borrow",), faults=("forget",), workers=4)
     ctx.count_nontrivial(r.cases_path, fault_key)
@@ -716,6 +723,37 @@ def p_C12(ctx):
     combos = [("dev", "elem", 0), ("release", "elem", 1), ("dev", "zst", 0)] + ([] if ctx.quick else [("dev", "u32", 2), ("release", "zst", 1)])
     for prof, elem, cap in combos:
         ctx.replay_and_validate(r.cases_path, attr_fault_replay, attr_fault_event, profile=prof, elem=elem, cap=cap, label="leaks")
+
+
+
+# --------------------------------------------------------------------------------------
+# Layer B models (implementation-shaped; refinement-checked by TLC, cursor states also drive replay coverage)
+# --------------------------------------------------------------------------------------
+RAWMEM_INVS = ["M_InBounds", "M_NoDoubleDrop", "M_Shape", "M_Owned", "M_Provenance", "M_Refines", "M_RejectUnchanged",
+               "M_DrainLine", "M_DrainRow", "M_ExactlyOnce"]
+
+
+def rawmem_check(ctx):
+    """RawMem.tla: insert_row / insert_col / remove_col + DrainCol / remove_row + Vec::drain over explicit memory, every
+    crash point, lie, leak stage; memory-level invariants at every step and refinement of Grid.tla on completion."""
+    m = 3 if ctx.quick else 4
+    cfg = cfg_text(constants={"MaxC": m, "MaxR": m, "Slacks": {0, 2}, "DebugBuilds": "@{TRUE, FALSE}"}, invariants=RAWMEM_INVS)
+    return ctx.tlc_run("rawmem", "RawMem", cfg, workers=8 if ctx.quick else 12, coverage=True, xmx="8g")
+
+
+def cursors_check(ctx, kinds, attribute):
+    """CursorsMC.tla: Layer B cursors (slice arithmetic in W-bit words, FlattenExact case analysis) refine SeqIter for every
+    reachable concrete state and every argument; every transition with a small argument is replayed against the real crate."""
+    q = ctx.quick
+    cfg = cfg_text(constants={"W": 5 if q else 6, "MaxC": 3 if q else 4, "MaxR": 3 if q else 4, "MaxSkip": 2, "CKinds": set(kinds),
+                              "EmitMaxN": 10 if q else 18, "Emit": True},
+                   view="View", invariants=["B_SameResult", "B_SameRemaining", "B_SameLen", "B_Rep", "B_InBounds"])
+    r = ctx.tlc_run("cursors", "CursorsMC", cfg, workers=8 if q else 12, xmx="8g")
+    ctx.count_nontrivial(r.cases_path, iter_key)
+    ctx.sample_from(r.cases_path, 1)
+    for prof, elem in [("dev", "u32"), ("release", "elem")]:
+        ctx.replay(r.cases_path, attribute, profile=prof, elem=elem, label="cursor-states")
+    return r
 
 
 
